@@ -386,7 +386,7 @@ def run_job(job: dict) -> dict:
                     for inst in sorted(res.by_instance, key=lambda i: (len(i), sorted(i))):
                         if inst in excluded:
                             continue
-                        msg = domains.check(res.by_instance[inst], voc)
+                        msg = domains.check(res.by_instance[inst], voc, domains.emitted_domains(rec["result_text"]))
                         if msg:
                             prev = rec["stages"][-2][1] if len(rec["stages"]) > 1 else job["prog"]
                             sig, canon = rewrite_signature("\n".join(str(s) for s in parse(job["prog"])), rec["result_text"])
